@@ -3,7 +3,6 @@ import json
 import random
 
 from checks import c02
-from checks import stmtcache_driver as sd
 
 LEVEL = "model_checking"
 MANIFEST = dict(
